@@ -5,22 +5,24 @@ Driver entries of C10: the decision procedure of BFL/Model/Race.lean executed (c
 that arrives *on the case line* (the shared driver must not depend on the regenerated file
 BFL/Gen/RaceTable.lean: if the translator ever emits something that does not elaborate, only C10 breaks).
 
-  c10 <what> nF nM nA nC  fields: (cls name kind)*  methods: (name ovl virtual body)*
+  c10 <what> nF nM nA nC nT  fields: (cls name kind)*  methods: (name ovl virtual body)*
                           accesses: (meth field kind self line nlocks lock*)*  calls: (caller callee kind)*
-      kind of a field 0 atomic 1 plain 2 mutex 3 condvar 4 other; of an access 0 read 1 write 2 rmw;
+                          thread ops: (meth field op line)*   op 0 spawn 1 join 2 joinable 3 detach 4 move 5 query 6 other
+      kind of a field 0 atomic 1 plain 2 mutex 3 condvar 4 other 5 thread; of an access 0 read 1 write 2 rmw;
       of a call 0 direct 1 virt 2 ref 3 spawn
     what = verdicts  -> "ok" then one token per member touched by both roles:
                         Class::member|kind|ok   or
                         Class::member|kind|bad|<ctl fn>|<line>|<r/w>|<filter fn>|<line>|<r/w>
     what = summary   -> "ok" roots-present wf  R <controller root ids> R <filter root ids>
                         C <reach controller bitset> F <reach filter bitset>  S <shared ids> U <undisciplined ids>
-                        P <spawn pairs callerName/calleeName>
+                        P <spawn pairs callerName/calleeName> J <join certified 0/1>
 -/
 namespace BFL.DriverRace
 open BFL BFL.Proto BFL.Race
 
 def kindStr : FieldKind → String
   | .atomic => "atomic" | .plain => "plain" | .mutex => "mutex" | .condvar => "condvar" | .other => "other"
+  | .thread => "thread"
 
 def accStr : AccKind → String
   | .read => "r" | .write => "w" | .rmw => "rw"
@@ -28,6 +30,13 @@ def accStr : AccKind → String
 def fieldKind : R FieldKind := do
   match (← nat) with
   | 0 => pure .atomic | 1 => pure .plain | 2 => pure .mutex | 3 => pure .condvar | 4 => pure .other
+  | 5 => pure .thread
+  | _ => failure
+
+def threadOpKind : R ThreadOpKind := do
+  match (← nat) with
+  | 0 => pure .spawn | 1 => pure .join | 2 => pure .joinable | 3 => pure .detach | 4 => pure .move
+  | 5 => pure .query | 6 => pure .other
   | _ => failure
 
 def accKind : R AccKind := do
@@ -41,7 +50,7 @@ def callKind : R CallKind := do
   | _ => failure
 
 def readTable : R Table := do
-  let nF ← nat; let nM ← nat; let nA ← nat; let nC ← nat
+  let nF ← nat; let nM ← nat; let nA ← nat; let nC ← nat; let nT ← nat
   let fields ← listOf nF (do let c ← nat; let n ← nat; let k ← fieldKind; pure (⟨c, n, k⟩ : Field))
   let methods ← listOf nM (do let n ← nat; let o ← nat; let v ← bool; let b ← bool; pure (⟨n, o, v, b⟩ : Method))
   let accesses ← listOf nA (do
@@ -49,8 +58,9 @@ def readTable : R Table := do
     let nl ← nat; let locks ← listOf nl nat
     pure (⟨m, f, k, s, locks, line⟩ : Access))
   let calls ← listOf nC (do let a ← nat; let b ← nat; let k ← callKind; pure (⟨a, b, k⟩ : Call))
+  let tops ← listOf nT (do let m ← nat; let f ← nat; let k ← threadOpKind; let l ← nat; pure (⟨m, f, k, l⟩ : ThreadOp))
   done
-  pure ⟨fields, methods, accesses, calls⟩
+  pure ⟨fields, methods, accesses, calls, tops⟩
 
 def verdictTok (T : Table) (f : Nat) : String :=
   let k := match T.fields[f]? with | some fd => kindStr fd.kind | none => "?"
@@ -66,7 +76,7 @@ def summary (T : Table) : List String :=
   (T.rootIds .controller).map toString ++ ["R"] ++ (T.rootIds .filter).map toString ++
   ["C", toString (T.reach .controller), "F", toString (T.reach .filter), "S"] ++ T.shared.map toString ++
   ["U"] ++ T.undisciplined.map toString ++ ["P"] ++
-  T.spawns.map fun p => decodeName p.1 ++ "/" ++ decodeName p.2
+  (T.spawns.map fun p => decodeName p.1 ++ "/" ++ decodeName p.2) ++ ["J", bstr T.joinCertifiedB]
 
 def handle (op : String) (args : List String) : Option String :=
   match op, args with
